@@ -33,6 +33,9 @@ def _layout_shape(got, exp):
     return "?"
 
 
+_PREV = []  # [object returned by the previous pack(), its bytes at that time, the field values]
+
+
 def check_fields(h, h2, frm, to, fid, typ, res, out):
     """pack() of a header carrying these field values == reference bytes; unpack() of those
     bytes restores the values.  h/h2 are scratch header objects.  Appends (sig, what, data)."""
@@ -47,6 +50,14 @@ def check_fields(h, h2, frm, to, fid, typ, res, out):
     except Exception as e:  # noqa
         out.append(("%s/pack-raises:%s:%s" % (PID, type(e).__name__, tclass), "pack() raised %r for %r" % (e, data["fields"]), data))
         return False
+    # the bytes handed out by the PREVIOUS pack() (of another header value) are still what they were
+    if _PREV and bytes(_PREV[0]) != _PREV[1]:
+        out.append(("%s/pack-result-overwritten" % PID, "the result of an earlier pack() (%s) reads %s after packing another header" % (
+            _PREV[1].hex(), bytes(_PREV[0]).hex()), dict(data, previous=list(_PREV[2]))))
+        _PREV.clear()
+        return False
+    if isinstance(got, (bytes, bytearray)):
+        _PREV[:] = [got, bytes(got), [frm, to, fid, typ, res]]
     if not isinstance(got, (bytes, bytearray)) or bytes(got) != exp:
         shape = _layout_shape(bytes(got), exp) if isinstance(got, (bytes, bytearray)) else "not-bytes"
         out.append(("%s/pack-layout:%s:%s" % (PID, shape, tclass),
@@ -368,9 +379,13 @@ def next_hop_pipe(src, dst):
     return parent, src >> (3 * (ls - 1))
 
 
-def build_air(src, dst, mode):
+def build_air(src, dst, mode, pre=None):
     w = World().activate()
     node, r = H.mk_node(w, src)
+    if pre == "toggle":
+        # history: fragmentation was switched off and on again (documented attribute)
+        node.fragmentation = False
+        node.fragmentation = True
     hop, pipe = next_hop_pipe(src, dst)
     addr = H.net_pipe_address(hop, pipe)
     L = d = None
@@ -523,9 +538,12 @@ AIR_ROUTES = ((0o1, 0), (0o1, 0o11), (0o1, 0o2), (0o1, 0o211), (0, 0o3), (0o4321
 
 def w_air(item, rep):
     src, dst, mode, cases, seed = item
-    pack, addr = build_air(src, dst, mode)
+    mode, _, pre = mode.partition("+")
+    pack, addr = build_air(src, dst, mode, pre or None)
     for typ, n, api in cases:
         case = dict(src=src, dst=dst, type=typ, n=n, api=api, mode=mode)
+        if pre:
+            case["pre"] = pre
         viol, outcome = air_case(pack, addr, case, seed)
         rep.case()
         rep.transitions += 1
@@ -567,6 +585,11 @@ def air_items(tier, seed):
         cases = [(typ, n, api) for typ in ((65, 127, 191) if tier == "quick" else (65, 66, 127, 128, 150, 191))
                  for n in ((0, 5, 24, 25, 60, 144) if tier == "quick" else (0, 1, 5, 23, 24, 25, 48, 49, 60, 143, 144)) for api in ("send", "write")]
         items.append((src, dst, "nack", cases, seed))
+    # after fragmentation was switched off and on again: every length on one direct and one routed pair
+    for src, dst in ((0o1, 0), (0o1, 0o2)):
+        cases = [(1, n, "send" if n % 2 else "write") for n in lens]
+        for i in range(0, len(cases), 49):
+            items.append((src, dst, "sent+toggle", cases[i:i + 49], seed))
     # nobody answers / the next hop stops answering after k fragments
     for i in range(0, 145, 8):
         items.append((0o1, 0o11, "failed", [(65 if n % 2 else 1, n, "send" if n % 3 else "write") for n in lens[i:i + 8]], seed))
@@ -635,7 +658,7 @@ def replay(data):
     out = []
     if r["part"] == "air":
         case = r["case"]
-        pack, addr = build_air(case["src"], case["dst"], case["mode"])
+        pack, addr = build_air(case["src"], case["dst"], case["mode"], case.get("pre"))
         viol, outcome = air_case(pack, addr, case, r["seed"])
         print("outcome:", outcome)
         out = viol
@@ -646,6 +669,9 @@ def replay(data):
         h, h2 = H.RF24NetworkHeader(), H.RF24NetworkHeader()
         tmp = []
         if kind == "fields":
+            _PREV.clear()
+            if r.get("previous"):
+                check_fields(h, h2, *r["previous"], tmp)  # the header value packed just before
             check_fields(h, h2, *r["fields"], tmp)
         elif kind == "raw":
             check_raw(h2, r["buf"], tmp)
